@@ -793,6 +793,7 @@ func c09OneValue(c *core.Ctx, g *c09Gen, pool []GT) {
 	} else {
 		c.Inc("values_typed")
 	}
+	c09CrossKind(c, w, v)
 	per := 4
 	if !v.Resource && !v.Exportable {
 		per = 3
